@@ -388,15 +388,28 @@ static int processAndInsertNode(KSI_TreeBuilder *builder, KSI_TreeNode *node) {
 		if (tmp != NULL) {
 			res = KSI_TreeNode_join(builder->ctx, builder->hsr, tmp, localRoot == NULL ? node : localRoot, &localRoot);
 			if (res != KSI_OK) goto cleanup;
+
+			/* The processor's node now belongs to the local root. */
+			tmp = NULL;
 		}
 	}
 
 	res = insertNode(builder, localRoot == NULL ? node : localRoot, 0);
 	if (res != KSI_OK) goto cleanup;
 
-	tmp = NULL;
+	/* The local root now belongs to the builder. */
+	localRoot = NULL;
 
 cleanup:
+
+	/* Undo the joins made for the leaf processors: release everything but the caller's node. */
+	while (localRoot != NULL && localRoot != node) {
+		KSI_TreeNode *next = localRoot->rightChild;
+		localRoot->rightChild = NULL;
+		KSI_TreeNode_free(localRoot);
+		localRoot = next;
+		if (localRoot != NULL) localRoot->parent = NULL;
+	}
 
 	KSI_TreeNode_free(tmp);
 
